@@ -19,9 +19,9 @@ git apply $OUT/patch.diff || { echo "PATCH DOES NOT APPLY"; git -C /repo worktre
 build=ok; go build ./... >/dev/null 2>&1 || build=FAIL
 suite=$(go test -vet=off -count=1 ./... 2>&1 | grep -- '^--- FAIL' | grep -v 'TestWritingFiles\|TestWriteControl' | tr '\n' ' ')
 cp $OUT/zz_seed_test.go $pdir/zz_seed_test.go
-demo_with=$(go test -tags verif -vet=off -count=1 -run "TestSeeded" ./$pdir 2>&1 | tail -1 | awk '{print $1}')
+demo_with=$(go test ${SEED_TESTFLAGS:-} -tags verif -vet=off -count=1 -run "TestSeeded" ./$pdir 2>&1 | tail -1 | awk '{print $1}')
 git checkout -q -- . ; 
-demo_without=$(go test -tags verif -vet=off -count=1 -run "TestSeeded" ./$pdir 2>&1 | tail -1 | awk '{print $1}')
+demo_without=$(go test ${SEED_TESTFLAGS:-} -tags verif -vet=off -count=1 -run "TestSeeded" ./$pdir 2>&1 | tail -1 | awk '{print $1}')
 # now our check, against the scratch worktree with the patch applied (never /repo itself)
 git apply $OUT/patch.diff
 cd /verif; t0=$(date +%s)
